@@ -69,6 +69,39 @@ def run_shard(pid, tier, seed, shard, nshards, partial_path, replay=None):
     Path(partial_path).write_text(json.dumps(run.partial()))
 
 
+import contextlib
+
+
+@contextlib.contextmanager
+def ambient_state(run, case):
+    """
+    Ambient process state that a result must not depend on, drawn per case from the case's own
+    random stream (so a replay reproduces it): evo's logger configured at DEBUG level the way
+    the command line tools leave it, and numpy print options as a notebook user sets them
+    (low precision, summarised arrays - any file or value produced through str(array) would
+    show it).  Nested cases (a property re-using another's executor) draw once, outermost.
+    """
+    import numpy as np
+    from vmon import core, gen
+    if getattr(ambient_state, "active", False) or "rs" not in case:
+        yield
+        return
+    rng = core.Run.rng(case, stream=977)
+    ambient_state.active = True
+    try:
+        with contextlib.ExitStack() as st:
+            if rng.random() < .12:
+                st.enter_context(np.printoptions(precision=int(rng.integers(1, 5)), suppress=True,
+                                                 threshold=int(rng.integers(3, 10)), edgeitems=1))
+                run.hit("ambient state: numpy print options precision<=4 / summarised")
+            if rng.random() < .12:
+                st.enter_context(gen.logging_state(rng, p=1.0))
+                run.hit("ambient state: evo logger configured at DEBUG")
+            yield
+    finally:
+        ambient_state.active = False
+
+
 def guard_executors(mod, core):
     """
     Wrap every executor of the property module: an exception that escapes from evo's own code
@@ -84,7 +117,8 @@ def guard_executors(mod, core):
         @functools.wraps(fn)
         def w(run, case):
             try:
-                return fn(run, case)
+                with ambient_state(run, case):
+                    return fn(run, case)
             except core.Inconclusive:
                 raise
             except Exception as e:
